@@ -129,6 +129,32 @@ func worker(a []string) {
 	}
 }
 
+// runShard runs one worker shard in a child process and returns its result (nil and the log tail if it failed).
+func runShard(self string, ck *checks.Check, id, tier string, i, n int, tmp, tag string) (*fw.Result, string) {
+	out := filepath.Join(tmp, fmt.Sprintf("%s%d.json", tag, i))
+	cmd := exec.Command(self, "worker", id, tier, strconv.Itoa(i), strconv.Itoa(n), out)
+	cmd.Env = append(os.Environ(), "GOMAXPROCS=2", "VERIF_WORKER=1", "GOGC=400")
+	if ck.Race {
+		cmd.Env = append(cmd.Env, "GORACE=halt_on_error=0 exitcode=0 atexit_sleep_ms=0 log_path="+filepath.Join(tmp, fmt.Sprintf("race%s%d", tag, i)))
+	}
+	logf := filepath.Join(tmp, fmt.Sprintf("%s%d.log", tag, i))
+	lf, _ := os.Create(logf)
+	cmd.Stdout, cmd.Stderr = lf, lf
+	err := cmd.Run()
+	lf.Close()
+	b, rerr := os.ReadFile(out)
+	var r fw.Result
+	if err != nil || rerr != nil || json.Unmarshal(b, &r) != nil {
+		lb, _ := os.ReadFile(logf)
+		tail := string(lb)
+		if len(tail) > 4000 {
+			tail = tail[len(tail)-4000:]
+		}
+		return nil, fmt.Sprintf("worker %d failed: %v\n%s", i, err, tail)
+	}
+	return &r, ""
+}
+
 func replay(id, file string, verbose bool) int {
 	ck := checks.Get(id)
 	if ck == nil || ck.Replay == nil {
@@ -144,6 +170,27 @@ func replay(id, file string, verbose bool) int {
 	if err := json.Unmarshal(b, &v); err != nil {
 		fmt.Fprintln(os.Stderr, err)
 		return 2
+	}
+	if v.History != nil {
+		// the case fails only after the cases that precede it in its worker shard: re-run that shard
+		self, _ := os.Executable()
+		tmp, err := os.MkdirTemp("", "verifh-hist-")
+		if err != nil {
+			fmt.Fprintln(os.Stderr, err)
+			return 2
+		}
+		defer os.RemoveAll(tmp)
+		r, tail := runShard(self, ck, id, v.History.Tier, v.History.Shard, v.History.NShards, tmp, "h")
+		if r == nil {
+			fmt.Println("HARNESS-ERROR history replay: worker failed\n" + tail)
+			return 2
+		}
+		if r.VioCount[v.Key] > 0 {
+			fmt.Printf("REPLAY-VIOLATION key=%s class=%s (history: shard %d/%d of tier %s)\n", v.Key, v.Class, v.History.Shard, v.History.NShards, v.History.Tier)
+			return 1
+		}
+		fmt.Println("REPLAY-OK no violation")
+		return 0
 	}
 	c := fw.NewCtx(id, "replay", seed(), 0, 1, 0)
 	if ck.CaseLimit > 0 && v.Class == "unbounded" {
@@ -279,6 +326,7 @@ func run(id, tier string) int {
 	const maxReported = 8
 	suppressed := 0
 	var nondet []string
+	histTried := 0
 keyLoop:
 	for _, k := range keys {
 		v := byKey[k]
@@ -325,6 +373,25 @@ keyLoop:
 				if !strings.Contains(string(out), "REPLAY-VIOLATION key="+k+" ") && !(k == "crash" && crashed) {
 					// not believed: a failure that does not reproduce is a problem of the machinery (or of a
 					// wall-clock guard under load), never a finding; other keys are still judged
+					if r == 0 && histTried < 3 && v.NShards == n {
+						// the case alone passes in a fresh process: does the shard that found it fail again, every time?
+						// (state kept by the code under test between cases: package-level caches, pools, memos)
+						histTried++
+						ok := true
+						for h := 0; h < 2 && ok; h++ {
+							hr, _ := runShard(self, ck, id, tier, v.Shard, n, tmp, fmt.Sprintf("hist%d-%d-", histTried, h))
+							ok = hr != nil && hr.VioCount[k] > 0
+						}
+						if ok {
+							v.History = &fw.History{Tier: tier, Shard: v.Shard, NShards: n}
+							v.Class += "+history"
+							v.Detail = "fails only after the cases that precede it in worker shard " + strconv.Itoa(v.Shard) + "/" + strconv.Itoa(n) + " (reproduced by re-running that shard twice; the case alone passes in a fresh process): the code under test carries state from one case to the next.\n" + v.Detail
+							byKey[k] = v
+							b, _ := json.MarshalIndent(v, "", " ")
+							os.WriteFile(file, b, 0o644)
+							break
+						}
+					}
 					fmt.Printf("HARNESS-NONDETERMINISM property=%s key=%s replay %d did not reproduce:\n%s\n", id, k, r, tailStr(string(out), 1500))
 					nondet = append(nondet, k)
 					os.Remove(file)
